@@ -69,13 +69,17 @@ func drawParams(k int, r *prng.R, tier string) caseParams {
 	}
 	if p.kind == "gc" {
 		p.proto.MTB = uint32(r.Range(4, 8))
-		p.local = Local{RUB: true, GCP: uint32(r.Range(2, 3))}
+		p.local = Local{RUB: true, GCP: uint32(r.Range(2, 3)), Timer: true}
 		p.n = r.Range(18, 26)
 		p.pfMille = 250
 		p.hdrs = false
 	}
 	if p.kind == "page" {
 		p.stopAt = 0
+	}
+	if p.kind == "reset" && (k == 1 || r.Chance(1, 3)) {
+		// a light node (MPT in GC mode) may be reset as long as it is below MaxTraceableBlocks
+		p.local = Local{RUB: true, GCP: 10000}
 	}
 	if p.kind == "reset" && p.target == 0 {
 		top := p.n
@@ -125,7 +129,7 @@ func runCase(k int, seed uint64, tier string) *caseOut {
 		want[uint32(p.stopAt)] = true
 	}
 	withTxs := func(i int) bool { return true }
-	wantF := func(h uint32) bool { return p.local.RUB || want[h] }
+	wantF := func(h uint32) bool { return p.local.Timer || want[h] }
 	if p.kind == "page" {
 		withTxs = func(i int) bool { return i <= 6 || i >= p.n-14 }
 	}
@@ -158,7 +162,7 @@ func runCase(k int, seed uint64, tier string) *caseOut {
 			c.fail("subject-run", "%v", err)
 			return c
 		}
-		if !sr.timerHit || p.local.RUB {
+		if !sr.timerHit || p.local.Timer {
 			break
 		}
 		c.cnt.count("subject:timer-interference-retry")
@@ -176,7 +180,7 @@ func runCase(k int, seed uint64, tier string) *caseOut {
 	c.cnt.add("batches", len(bs))
 	c.cnt.add("blocks", p.n)
 	skip := map[string]bool{}
-	if p.local.RUB {
+	if p.local.Timer {
 		skip["transfers"] = true
 	}
 	// every prefix of the batch list is a crash point
